@@ -510,6 +510,7 @@ func (fr *Frame) enterLoop(li *loopInfo, reach string, st *State, pre map[*ssa.P
 				continue
 			}
 			env := fr.env.at(st, fr)
+			env.loopHdr = li.header
 			g := env.evalBool(inv.E)
 			vc.oblige("invariant", fmt.Sprintf("%s/%s/loop%d/invariant[%s]/entry", vc.prop, fname, li.ordinal, inv.Name), inv.Src, reach, g, li.header.Instrs[0].Pos(), inv.Claimed)
 		}
@@ -549,6 +550,7 @@ func (fr *Frame) enterLoop(li *loopInfo, reach string, st *State, pre map[*ssa.P
 	// 3. assume the invariant in the arbitrary iteration
 	if spec != nil && fr.env != nil {
 		env := fr.env.at(hst, fr)
+		env.loopHdr = li.header
 		for _, inv := range spec.Invariants {
 			vc.assume(li.reach, env.evalBool(inv.E))
 		}
@@ -578,6 +580,7 @@ func (fr *Frame) backEdge(li *loopInfo, from *ssa.BasicBlock, cond string, st *S
 		fr.vals[phi] = v
 	}
 	env := fr.env.at(st, fr)
+	env.loopHdr = li.header
 	for _, inv := range spec.Invariants {
 		if !inv.appliesTo(vc.prop) {
 			continue
@@ -1344,6 +1347,11 @@ func (fr *Frame) convert(x *ssa.Convert, st *State, reach string) {
 			s := vc.fresh(fr.name(x), "Int")
 			vc.assume(reach, fmt.Sprintf("(= (strlen %s) (s_len %s))", s, v))
 			vc.assume(reach, sEq(s, fmt.Sprintf("(bytes2str %s %s)", v, fr.elemRow(st, v, types.Typ[types.Byte]))))
+			if _, ok := vc.DB.Specs["zeroCopy"]; ok {
+				// a converted string owns its bytes (unlike a zero-copy view of a buffer)
+				fn := vc.declareFun(sym("spec!zeroCopy"), []string{"Int"}, "Bool")
+				vc.assume(reach, fmt.Sprintf("(not (%s %s))", fn, s))
+			}
 			fr.vals[x] = s
 			return
 		}
